@@ -20,9 +20,10 @@ func init() {
 			"(R3) EncodedSize equals ceil(bitlength/7) at every 7-bit boundary (finite-valuation propagation over boundary representatives); " +
 			"(R4) GetNextBlock bounds the decoded length in the unsigned domain, with the prefix length accounted for, before it is converted, and returns data[n:n+l] with count n+l; PrependLength prefixes len(data). " +
 			"(R5) narrowing integer conversions in package varint happen only after a range test of the value. " +
+			"(R6) every result of PrependLength is built from Pack64(len(data)): no path returns the bare input (an empty block must still carry its zero length prefix to be readable by GetNextBlock). " +
 			"NOT decided: value exactness of encoding/binary itself, inverse property for all values (arithmetic).",
 		Rules: []ruleFn{c10R1, c10R2, c10R3, c10R4,
-			func(c *Ctx, r *Report) { narrowingRule(c, r, "C10-R5", []string{"formats/varint"}, map[string]string{}) }},
+			func(c *Ctx, r *Report) { narrowingRule(c, r, "C10-R5", []string{"formats/varint"}, map[string]string{}) }, c10R6},
 	})
 }
 
